@@ -424,10 +424,41 @@ func checkIsEqual(p *Prog, l *Ledger) {
 					bad = true
 				}
 			}
-			if bad {
+			// identity: the only ways to answer false are "the other side is not of this kind" and "the lengths differ";
+			// otherwise the answer is whether both are the same storage — so every container equals itself, also an empty one
+			mw := NewInterpModel(p, "isEqual-words["+ts+"]")
+			mw.EmitTests = true
+			mw.KeepAsEvent = func(c *ssa.Function) bool { return false }
+			mw.Explore(fn, []AV{Sym("a"), Sym("b")}, func(st *State) { st.Facts["type:a"] = StrV(ts) })
+			words, okW := mw.G.Words(200)
+			var odd []string
+			if !okW {
+				odd = append(odd, "paths not enumerable")
+			}
+			reStep := regexp.MustCompile(`^(typetest\((a|b), [^)]*(\{\})?\)→(true|false)|test\(\(len\((a|b)\) == len\((a|b)\)\)\)→(true|false))$`)
+			for _, w := range words {
+				parts := strings.Split(normName(wordString(w)), " ; ")
+				last := parts[len(parts)-1]
+				okWord := last == "return((Pointer(ValueOf(a)) == Pointer(ValueOf(b))))" || last == "return((Pointer(ValueOf(b)) == Pointer(ValueOf(a))))"
+				if last == "return(false)" && len(parts) >= 2 && strings.HasSuffix(parts[len(parts)-2], "→false") && !strings.HasPrefix(parts[len(parts)-2], "typetest(a,") {
+					okWord = true
+				}
+				for _, st := range parts[:len(parts)-1] {
+					if !reStep.MatchString(st) {
+						okWord = false
+					}
+				}
+				if !okWord {
+					odd = append(odd, strings.Join(parts, " ; "))
+				}
+			}
+			switch {
+			case bad:
 				l.Violate(rule, key, p.Pos(fn.Pos()), "a container operand reaches Go's interface == (panics when the other side has the same type)")
-			} else {
-				l.Discharge(rule, key, p.Pos(fn.Pos()), "containers compared without interface ==: "+strings.Join(rets, " | "), true)
+			case len(odd) > 0:
+				l.Violate(rule, key, p.Pos(fn.Pos()), "equality of containers is not identity (same kind, same length, same storage — nothing else may decide, or some container would differ from itself): "+strings.Join(uniqStrings(sortStrings(odd)), " || "))
+			default:
+				l.Discharge(rule, key, p.Pos(fn.Pos()), "containers compared by identity without interface ==: "+strings.Join(rets, " | "), true)
 			}
 		default:
 			if len(rets) == 1 && (rets[0] == "(a == b)" || rets[0] == "(b == a)") {
